@@ -158,6 +158,9 @@ class RefsExtractor(ConversionsVisitor, ObjectVisitor, WithConversionsResolver):
         except Unsupported:
             for ref_tp in ref_types:
                 self.refs.pop(get_type_name(ref_tp).json_schema, ...)  # type: ignore
+            # types containing the unsupported one are unsupported too (unsupported
+            # union alternatives are ignored at the union level)
+            raise
         finally:
             self._rec_guard[(tp, self._conversion)] -= 1
 
